@@ -8,11 +8,11 @@ CONSTANTS
   Record = FALSE
   MCN = 3
   MaxLen = 2
-  Alphabet = "narrow"
-  Prefits = {"none", "fitbase"}
+  Alphabet = "wide"
+  Prefits = {"none", "fit", "fitbase"}
   CfgSel = "all"
   Sample = 0
-  Depth = 3
+  Depth = 2
 CONSTRAINT Bound
 VIEW MCView
 INVARIANT TypeOK
